@@ -36,6 +36,8 @@ ASSUMPTIONS = [
 ]
 REQUIRED_REACH = [
     "probe:rle_record",
+    "probe:rle_zero_run_followed_by_records",
+    "probe:long_rle_followed_by_rle",
     "probe:eof_marker_straddles_refill",
     "probe:truncated_in:payload",
     "probe:truncated_in:rec_offset",
@@ -111,7 +113,7 @@ def gen_records(rng: random.Random, delta: int) -> list[tuple[int, str, Any, int
                 cursor = off + delta + 0x454F
                 continue
         if is_rle:
-            run = rng.choice([1, 2, 3, 255, 256, 4096, 65535, rng.randrange(1, 300)])
+            run = rng.choice([1, 2, 3, 255, 256, 4095, 4096, 4097, 65535, rng.randrange(1, 300), rng.randrange(0x1000, 0x4000), 0])  # 0: writes nothing
             recs.append((off, "rle", (run, rng.randrange(256)), 0))
             cursor = off + delta + run
         else:
@@ -344,6 +346,10 @@ def run_single(case: dict[str, Any], stats: Stats) -> list[Violation]:
     kinds = tuple(sorted({("rle" if r[1] == "rle" else "plain:" + size_class(r[2])) for r in recs}))
     if any(r[1] == "rle" for r in recs):
         stats.bump("probe:rle_record")
+    if any(r[1] == "rle" and r[2][0] == 0 for r in recs[:-1]):
+        stats.bump("probe:rle_zero_run_followed_by_records")
+    if any(r[1] == "rle" and r[2][0] >= 0x1000 and any(q[1] == "rle" for q in recs[i + 1 :]) for i, r in enumerate(recs)):
+        stats.bump("probe:long_rle_followed_by_rle")
     if case.get("via_writer"):
         stats.bump("probe:patch_from_a816_ipswriter")
     if case.get("second_delta") is not None:
